@@ -165,7 +165,51 @@ class WriterModel(object):
             return []
         if isinstance(node, ast.Constant) and node.value is None:
             return []
+        if isinstance(node, (ast.GeneratorExp, ast.ListComp)) and len(node.generators) == 1:
+            # (key, value) pairs produced from a literal table, possibly filtered
+            gen = node.generators[0]
+            its = self.literal_items(gen.iter, env)
+            if its is not None:
+                items, ienv = its
+                rows = []
+                for it in items:
+                    e2 = self.bind_target(gen.target, it, ienv, env)
+                    if e2 is None:
+                        break
+                    gs = list(guards) + [(subst(c, e2), True) for c in gen.ifs]
+                    rows.append(self.tuple_row(node.elt, e2, gs, method))
+                else:
+                    return rows
         raise AnalysisError('%s:%d: cannot interpret attribute list expression %s' % (method, getattr(node, 'lineno', 0), P.src(node)))
+
+    def literal_items(self, node, env):
+        """elements of a literal tuple/list (directly, or through a local bound to one): (elements, env to read them in)"""
+        if isinstance(node, (ast.Tuple, ast.List)) and not any(isinstance(e, ast.Starred) for e in node.elts) and len(node.elts) <= 24:
+            return list(node.elts), env
+        if isinstance(node, ast.Name) and isinstance(env.get(node.id), str):
+            try:
+                sub = ast.parse(env[node.id], mode='eval').body
+            except SyntaxError:
+                return None
+            if isinstance(sub, (ast.Tuple, ast.List)) and len(sub.elts) <= 24:
+                for x in ast.walk(sub):
+                    if not hasattr(x, 'lineno'):
+                        x.lineno = getattr(node, 'lineno', 0)
+                        x.col_offset = 0
+                return list(sub.elts), {}
+        return None
+
+    def bind_target(self, target, item, ienv, env):
+        """environment of one iteration over a literal table: loop names bound to the source text of the components"""
+        e2 = dict(env)
+        if isinstance(target, ast.Name):
+            e2[target.id] = subst(item, ienv)
+            return e2
+        if isinstance(target, ast.Tuple) and all(isinstance(t, ast.Name) for t in target.elts) and isinstance(item, ast.Tuple) and len(item.elts) == len(target.elts):
+            for t, c in zip(target.elts, item.elts):
+                e2[t.id] = subst(c, ienv)
+            return e2
+        return None
 
     def const_alts(self, ifexp, env):
         """both arms of a conditional expression are string constants (a tag name chosen by a condition)"""
@@ -266,6 +310,12 @@ class WriterModel(object):
                 lists[v] = SymList(self.rows_of(val, env, lists, guards_for_new_list(guards), method))
                 env.pop(v, None)
                 return
+            if isinstance(val, ast.IfExp) and all(isinstance(a, ast.List) and all(self.is_pair(e, env) for e in a.elts) for a in (val.body, val.orelse)):
+                # attrs = [pairs] if cond else [other pairs]
+                t = subst(val.test, env)
+                lists[v] = SymList(self.rows_of(val.body, env, lists, [(t, True)], method) + self.rows_of(val.orelse, env, lists, [(t, False)], method))
+                env.pop(v, None)
+                return
             if isinstance(val, ast.Call) and P.call_name(val) == 'list' and len(val.args) == 1 and isinstance(val.args[0], ast.Name) \
                     and val.args[0].id in lists:
                 lists[v] = SymList(lists[val.args[0].id].rows)
@@ -329,6 +379,15 @@ class WriterModel(object):
                 inner = self.element(c, env, lists, guards, inner, method, data=False)
             self.block(st.body, env, lists, guards, inner, method)
             return
+        if isinstance(st, (ast.For, ast.AsyncFor)) and not st.orelse and self.literal_items(st.iter, env) is not None \
+                and not any(isinstance(n, ast.Break) for n in ast.walk(st)):
+            # a loop over a literal table is the sequence of its iterations
+            items, ienv = self.literal_items(st.iter, env)
+            envs = [self.bind_target(st.target, it, ienv, env) for it in items]
+            if all(e is not None for e in envs):
+                for e2 in envs:
+                    self.block(st.body, e2, lists, guards, sink, method)
+                return
         if isinstance(st, (ast.For, ast.AsyncFor)):
             it = subst(st.iter, env)
             self.loops.append(it)
